@@ -626,8 +626,11 @@ const KITTY_MAX_ID: u64 = 4294967295;
 const KITTY_MAX_DIM: u64 = 65536;
 
 /// Identification for image data
+///
+/// Zero is not a valid image id (the protocol reads it as "unspecified"),
+/// so identifiers are in the range `1..=KITTY_MAX_ID`.
 fn kitty_image_id(img: &Image) -> u64 {
-    img.hash() % KITTY_MAX_ID
+    img.hash() % KITTY_MAX_ID + 1
 }
 
 /// Identification of particular placement of the image
